@@ -12,7 +12,8 @@ PROPERTY = "C03"
 LEVEL = "exploration"
 RULE = ("Hypothesis draws 1..6 (quick) / 1..30 (thorough) integer state trajectories of length 0..25 / 0..200 over "
         "1..8 states, lag 1..12, sliding window on/off, max_n_states in {None, observed, observed+extra}, and a "
-        "presentation (RaggedArray, -1-padded rectangular ndarray, permuted order; int8/int16/int32/int64/uint8/uint16 "
+        "presentation (RaggedArray, -1-padded rectangular ndarray in C / Fortran / transposed / row- and column-strided view "
+        "layouts, permuted order; a separate clause counts 1023..4097 short trajectories; int8/int16/int32/int64/uint8/uint16 "
         "elements; one case in five uses a few large state ids up to min(dtype max, 400)). Oracle: literal "
         "double loop over (t, t+lag) pairs per trajectory. A case is non-trivial when it has >=2 trajectories, one "
         "of length <= lag, one of length > 2*lag and at least one transition observed twice; distinct = distinct "
@@ -52,6 +53,21 @@ def build_input(trajs, how, dtype="int64"):
         for i, t in enumerate(trajs):
             a[i, :len(t)] = t
         return a
+    if how in ("padded_F", "padded_colview", "padded_rowview", "padded_T"):
+        # same values as "padded", other memory layouts (rows are then NOT contiguous in memory)
+        base = build_input(trajs, "padded", dtype)
+        n, m = base.shape
+        if how == "padded_F":
+            return np.asfortranarray(base)
+        if how == "padded_T":
+            return np.ascontiguousarray(base.T).T            # a frames x trajectories table, transposed
+        if how == "padded_colview":
+            big = np.full((n, 2 * m + 1), 7, dtype=dtype)
+            big[:, 1::2] = base
+            return big[:, 1::2]
+        big = np.full((2 * n + 1, m), 7, dtype=dtype)
+        big[1::2] = base
+        return big[1::2]
     raise ValueError(how)
 
 
@@ -93,7 +109,8 @@ def count_case(draw, max_traj=6, max_len=25):
     obs = max(max(t) for t in trajs if t) + 1
     mns = draw(st.sampled_from([None, "obs", "extra"]))
     max_n_states = None if mns is None else obs if mns == "obs" else obs + draw(st.integers(1, 3))
-    hows = ["ragged", "padded", "padded_extra"] if not dtype.startswith("u") else ["ragged"]
+    hows = (["ragged", "padded", "padded_extra", "padded_F", "padded_colview", "padded_rowview", "padded_T"]
+            if not dtype.startswith("u") else ["ragged"])
     return {"trajs": trajs, "lag": lag, "sliding": draw(st.booleans()),
             "max_n_states": max_n_states,
             "how": draw(st.sampled_from(hows)),
@@ -167,7 +184,7 @@ def run_presentations(case):
     rng = np.random.RandomState(case["perm_seed"])   # seed drawn by Hypothesis; deterministic given the case
     perm = rng.permutation(len(trajs))
     base = call(trajs, case, "padded")
-    for how in ["ragged", "padded_extra"]:
+    for how in ["ragged", "padded_extra", "padded_F", "padded_colview", "padded_rowview", "padded_T"]:
         if how == "ragged" and any(len(t) == 0 for t in trajs):
             continue
         other = call(trajs, case, how)
@@ -202,10 +219,40 @@ def exhaustive_small(tier, shard, nshards):
     return gen()
 
 
+@st.composite
+def many_case(draw):
+    """Thousands of short trajectories: the count must not depend on how many trajectories there are."""
+    ntraj = draw(st.sampled_from([1023, 1024, 1025, 1500, 2047, 2049, 2500, 4097]))
+    n_states = draw(st.integers(2, 5))
+    lag = draw(st.integers(1, 3))
+    seed = draw(st.integers(0, 2 ** 31 - 1))
+    return {"ntraj": ntraj, "n_states": n_states, "lag": lag, "seed": seed, "sliding": draw(st.booleans()),
+            "how": draw(st.sampled_from(["ragged", "padded"])), "dtype": draw(st.sampled_from(["int64", "int32", "int16"])),
+            "max_len": draw(st.integers(2, 7))}
+
+
+def run_many(case):
+    rng = np.random.RandomState(case["seed"])        # seed drawn by Hypothesis
+    lens = rng.randint(1, case["max_len"] + 1, size=case["ntraj"])
+    trajs = [rng.randint(0, case["n_states"], size=int(L)).tolist() for L in lens]
+    c = {"lag": case["lag"], "sliding": case["sliding"], "max_n_states": case["n_states"], "how": case["how"],
+         "dtype": case["dtype"]}
+    R = ref_counts(trajs, case["lag"], case["sliding"], case["n_states"])
+    C = call(trajs, c)
+    require(np.array_equal(C, R), "count matrix differs from literal pair count for many trajectories",
+            ntraj=case["ntraj"], got_total=int(C.sum()), want_total=int(R.sum()))
+    half = case["ntraj"] // 2
+    CA, CB = call(trajs[:half], c), call(trajs[half:], c)
+    require(np.array_equal(CA + CB, C), "counts not additive over two halves of many trajectories", ntraj=case["ntraj"])
+    return Info(True, ["ntraj=%d" % case["ntraj"], "how=" + case["how"]],
+                key=[case["ntraj"], case["seed"], case["lag"], case["sliding"], case["how"]])
+
+
 CLAUSES = [
     Clause("exact", count_case(), run_exact, quick=1200, thorough=30000, exhaustive=exhaustive_small),
     Clause("additive", count_case(), run_additive, quick=600, thorough=15000),
     Clause("presentations", count_case(), run_presentations, quick=600, thorough=15000),
     Clause("exact_large", count_case(max_traj=30, max_len=200), run_exact, quick=0, thorough=4000),
+    Clause("many_trajectories", many_case(), run_many, quick=16, thorough=160),
 ]
 MATCHERS = {}
